@@ -253,7 +253,9 @@ def handler(st, opts):
                     vals.append(eval_tt(tt, c, tt.TT(xl2), tt.TT(yl2), body, head, red, tt.TT(wl2) if wl2 is not None else None).item())
             fd = (vals[0] - vals[1]) / (2 * h)
             gv = got[0].reshape(-1)[e].item() if got[0] is not None else 0.0
-            if abs(fd - gv) > 1e-5 * max(1.0, abs(gv), abs(fd)):
+            # (second-order central differences on a polynomial of degree up to 8: truncation error h^2 f''' - a coarse
+            #  cross-check of the autograd oracle, not a precision test)
+            if abs(fd - gv) > 2e-3 * max(1.0, abs(gv), abs(fd)):
                 problems.append(P("finite-diff", "d/d(core0[%d]) = %.8g by autograd, %.8g by central differences" % (e, gv, fd)))
     stats["nontrivial"] = 1 if body["op"] not in ("x", "y") else 0
     return {"problems": problems, "stats": stats, "sample": {"structure": S, "body": body, "head": head, "reducer": red, "tracked": track}}
